@@ -212,6 +212,34 @@ theorem ownMembers_derived (c : ClassDef) (fields : List (String × Member)) :
 
 theorem c3_structure : c3 [["Structure"], ["Structure"]] = some ["Structure"] := by decide
 
+theorem c12_mem_assocSet {α} {k : String} {v : α} {q : String × α} :
+    ∀ {l : List (String × α)}, q ∈ assocSet k v l → q = (k, v) ∨ q ∈ l
+  | [], h => by simp [assocSet] at h; exact Or.inl h
+  | (a, b) :: rest, h => by
+    simp only [assocSet] at h
+    split at h
+    · rename_i hk
+      have hka : k = a := by simpa using hk
+      rcases List.mem_cons.mp h with h1 | h1
+      · left; rw [h1, hka]
+      · right; exact List.mem_cons_of_mem _ h1
+    · rcases List.mem_cons.mp h with h1 | h1
+      · right; rw [h1]; exact List.mem_cons_self
+      · rcases c12_mem_assocSet h1 with h2 | h2
+        · exact Or.inl h2
+        · exact Or.inr (List.mem_cons_of_mem _ h2)
+
+theorem c12_mem_updateAll {α} {q : String × α} : ∀ {l acc : List (String × α)},
+    q ∈ updateAll acc l → q ∈ acc ∨ q ∈ l
+  | [], acc, h => Or.inl h
+  | p :: ps, acc, h => by
+    simp only [updateAll] at h
+    rcases c12_mem_updateAll h with h1 | h1
+    · rcases c12_mem_assocSet h1 with h2 | h2
+      · right; rw [h2]; exact List.mem_cons_self
+      · exact Or.inl h2
+    · exact Or.inr (List.mem_cons_of_mem _ h1)
+
 /-- the class `type(name, (Structure,), dict)` yields for an operator's dict -/
 theorem build_derived {w : World} (hS : HasStructure w) (c : ClassDef) (nm : String)
     (fields : List (String × Member)) (req : List String) :
@@ -240,10 +268,36 @@ theorem build_derived {w : World} (hS : HasStructure w) (c : ClassDef) (nm : Str
   · show _ :: mroTail w _ = _
     rw [htail]; rfl
   · show requiredOf w _ = _
-    simp only [requiredOf, hbr, List.nil_append, requiredOwn]
+    have hall : allFieldsOf w (derivedSrc c nm fields req) = updateAll [] fields := by
+      simp only [allFieldsOf, htail, List.reverse_cons, List.reverse_nil, List.nil_append,
+        List.map_cons, List.map_nil, hown, List.cons_append, mergeAll, updateAll]
+      rw [show (derivedSrc c nm fields req).entries = initEntries c ++ objEntries fields from rfl,
+        ownMembers_derived]
+    have hirc : inheritedRequiredConsts w (derivedSrc c nm fields req) = [] := by
+      simp only [inheritedRequiredConsts, hbd]
+      simp [World.builtin]
+    simp only [requiredOf, hbr, List.nil_append, hirc, List.append_nil, requiredEff, requiredOwn, hall]
     rw [show (derivedSrc c nm fields req).entries = initEntries c ++ objEntries fields from rfl,
       ownMembers_derived]
-    simp [derivedSrc]
+    have hreq : (derivedSrc c nm fields req).required = some req := rfl
+    simp only [hreq, Option.getD_some, Option.isNone_some, Bool.false_eq_true, if_false, List.append_nil,
+      List.filter_filter]
+    congr 1
+    apply List.filter_congr
+    intro n _
+    cases hA : (fields.any fun p => p.1 == n && p.2.hasDefault) with
+    | true => simp
+    | false =>
+      simp only [Bool.not_false, Bool.and_true]
+      cases hl : lookup n (updateAll [] fields) with
+      | none => rfl
+      | some m =>
+        have hm : (n, m) ∈ fields := by
+          rcases c12_mem_updateAll (lookup_mem hl) with h | h
+          · cases h
+          · exact h
+        have := (List.any_eq_false.mp hA) (n, m) hm
+        simpa using this
   · show ((derivedSrc c nm fields req).ignoreNone.orElse fun _ =>
         inheritedOpt w (·.ownIgnoreNone) (mroTail w _)).getD false = _
     rw [htail]
